@@ -323,10 +323,13 @@ def run_case(spec, check_purity=True, extra_at=None):
             if w_ != where:
                 continue
             nq = len(qlog)
-            if is_base:
-                obj.query(np.zeros((int(arg), 1)), return_utilities=True)
-            else:
-                obj.query_by_utility(np.array([NAN if u == "nan" else float(u) for u in arg], dtype=float))
+            try:
+                if is_base:
+                    obj.query(np.zeros((int(arg), 1)), return_utilities=True)
+                else:
+                    obj.query_by_utility(np.array([NAN if u == "nan" else float(u) for u in arg], dtype=float))
+            except Exception as e:  # noqa: BLE001  -- an extra query that raises is an observable result, not a harness error
+                run.segments.append("extra-query-raised " + err_enum(e))
             del qlog[nq:]
 
     with quantile_spy(qlog), np.errstate(all="ignore"):
